@@ -216,8 +216,16 @@ def _field_of_load(prog, v):
 def classify_ir(prog, f, i):
     """IR-level idioms; returns (idiom, reason) or None when path facts are needed"""
     a, b = i.operands
-    if f.name in HELPERS:
-        return ("2-helper-internal", HELPERS[f.name])
+    # 2: inside the guard helpers only specific shapes are accepted (no blanket pass):
+    if f.name == "_cbor_safe_to_multiply" and i.op == "add":
+        sa, sb = strip_casts(a, ("zext", "trunc")), strip_casts(b, ("zext", "trunc"))
+        if all(isinstance(x, Inst) and x.op == "call" and x.callee == "_cbor_highest_bit" for x in (sa, sb)):
+            return ("2-helper-internal", "sum of two bit lengths, each <= 64")
+    if f.name == "_cbor_highest_bit" and i.op == "add" and isinstance(b, Const) and b.v == 1 and isinstance(a, Inst) and a.op == "phi":
+        import loops as _loops
+        lp = [r for r in _loops.classify_loops(prog, f) if r["ok"]]
+        if lp and all(r["kind"].startswith("counted") for r in lp):
+            return ("2-helper-internal", "bit counter: incremented once per iteration of a shift-down loop (<= 64 iterations)")
     # 9: byte assembly in the loaders
     if f.name.startswith("_cbor_load_uint"):
         return ("9-byte-assembly", "big-endian assembly of zero-extended bytes (map checked by C10.loader)")
@@ -299,6 +307,12 @@ def classify_event(prog, pa, idx, e):
     # 3: subtractive guard
     if op == "add":
         for x, y in ((a, b), (b, a)):
+            # x + y with y <= z - x known (any spelling of the comparison)
+            for t in list(facts_before):
+                if t[0] == "icmp":
+                    for z in (t[2], t[3]):
+                        if isinstance(z, tuple) and z[0] == "op" and z[1] == "sub" and z[4] == x and st.rel_ge(z, y, upto=e.nfacts):
+                            return True, "3-subtractive-guard", ""
             for t, truth in facts_before.items():
                 if t[0] == "icmp" and t[1] == "ugt" and t[2] == y and truth is False and t[3][0] == "op" and t[3][1] == "sub" and t[3][4] == x:
                     return True, "3-subtractive-guard", ""
@@ -307,7 +321,7 @@ def classify_event(prog, pa, idx, e):
                 if t[0] == "icmp" and t[1] == "uge" and t[3] == y and truth is True and t[2][0] == "op" and t[2][1] == "sub" and t[2][4] == x:
                     return True, "3-subtractive-guard", ""
     if op == "sub":
-        if facts_before.get(("icmp", "ugt", a, b)) is True or facts_before.get(("icmp", "uge", a, b)) is True:
+        if st.rel_ge(a, b, upto=e.nfacts):
             return True, "3-subtractive-guard", ""
         if b == ("c", 0):
             return True, "0-constant", ""
@@ -329,7 +343,13 @@ def classify_event(prog, pa, idx, e):
     if op == "add":
         for s in (("op", "add", "i64", a, b), ("op", "add", "i64", b, a)):
             for x in (a, b):
-                if ("icmp", "ult", s, x) in truth_all:
+                if ("icmp", "ult", s, x) in truth_all or ("icmp", "uge", s, x) in truth_all or \
+                        ("icmp", "ugt", x, s) in truth_all or ("icmp", "ule", x, s) in truth_all:
+                    return True, "4-post-check", ""
+    if op == "mul":
+        for s_ in (("op", "mul", "i64", a, b), ("op", "mul", "i64", b, a)):
+            for x, y in ((a, b), (b, a)):
+                if truth_all.get(("icmp", "eq", ("op", "udiv", "i64", s_, x), y)) is not None:
                     return True, "4-post-check", ""
     # 8: window / remainder arithmetic with proven accumulation
     if fn == "claim_bytes" and op == "sub":
